@@ -3,20 +3,19 @@ import OntVerif.Proofs.ConnCtlHist
 /-!
 # C36 — peer connection limits hold under concurrent connection attempts
 
-`Model/ConnCtl.lean` mirrors the controller as it is in the tree (slot reservation of commit 280bc886): every
-connection attempt is a thread with a program counter, the shared state is the controller's address sets, a schedule
-is a list of thread ids — including repeated `Close()`s of stale `Conn` handles.
+`Model/ConnCtl.lean` mirrors the controller as it is in the tree (slot reservation of commit 280bc886, `Conn.Close`
+once per `Conn` of commit 471ac830): every connection attempt is a thread with a program counter, the shared state is
+the controller's address sets, a schedule is a list of thread ids — including repeated `Close()`s of stale `Conn`
+handles around reconnects from the same address.
 
 * `C36_sound`: after EVERY schedule of ANY number of threads (hence in every reachable state) the controller's counters
-  respect the three configured limits — for the code as it is and for the `Conn.Close`-once repair alike;
-  `C36_sound_reserved` strengthens the conclusion to established + reserved slots.
-* `C36_established_full`: the number of connections actually ESTABLISHED respects the limits.  False for the code as
-  it is (`C36_established_asShipped_counterexample`: a second `Close()` of a stale `Conn` after the same address has
-  reconnected removes the live connection's record, the freed slot admits one connection too many); true for
-  `fixes/C36-stale-close.patch` (`C36_established_sound`) and, for the code as it is, along every schedule that
-  closes no `Conn` twice (`C36_established_asShipped_partial`).
-* `C36_historical_*`: the controller before 280bc886 (`Model/ConnCtlHist.lean:stepHist`, an explicitly historical
-  function) violated all three limits by check-then-act; kept as checked refutations plus what did hold for it.
+  respect the three configured limits; `C36_sound_reserved` strengthens the conclusion to established + reserved slots.
+* `C36_sound_established`: the number of connections actually ESTABLISHED (not only the size of the address sets)
+  respects the limits.
+* `C36_historical_*`: the controller before 280bc886 (`Model/ConnCtlHist.lean:stepHist`) violated all three limits by
+  check-then-act; the controller before 471ac830 (`stepStaleHist`) admitted one connection too many after a repeated
+  `Close()` of a stale `Conn`.  Explicitly historical step functions, kept as checked refutations next to what did
+  hold for them; their witnesses are in `corpus/C36/`, so a reversion of either commit is a VIOLATION.
 -/
 namespace OntVerif.Props.C36
 open OntVerif.Model.ConnCtl OntVerif.Proofs.ConnCtl
@@ -24,29 +23,28 @@ open OntVerif.Model.ConnCtl OntVerif.Proofs.ConnCtl
 /-- **The property on the controller's counters**: for all configurations, all sets of connection attempts and all
 interleavings of their atomic actions (accepts, dials, handshake outcomes, closes, repeated closes),
 inbound ≤ MaxConnInBound ∧ per-IP inbound ≤ MaxConnInBoundForSingleIP ∧ outbound ≤ MaxConnOutBound. -/
-def C36_full (v : Variant) : Prop :=
+def C36_full : Prop :=
   ∀ (cfg : Cfg) (ths : List Thread) (sched : List Nat), (∀ t ∈ ths, t.pc = .start) →
-    LimitsHold (run v (init cfg ths) sched)
+    LimitsHold (run (init cfg ths) sched)
 
-/-- holds for the code as it is (`.asShipped`) and with the stale-close repair (`.sound`):
-every schedule, any number of connections -/
-theorem C36_sound : ∀ v, C36_full v := fun v cfg ths sched h =>
-  (run_inv v (inv_init cfg ths h) sched).limits
+/-- the controller as it is: every schedule, any number of connections -/
+theorem C36_sound : C36_full := fun cfg ths sched h =>
+  (run_inv (inv_init cfg ths h) sched).limits
 
-theorem run_cfg (v : Variant) (s : State) (sched : List Nat) : (run v s sched).cfg = s.cfg := by
+theorem run_cfg (s : State) (sched : List Nat) : (run s sched).cfg = s.cfg := by
   induction sched generalizing s with
   | nil => rfl
   | cons i r ih =>
-    show (run v (step v s i) r).cfg = s.cfg
-    rw [ih]; exact step_cfg v s i
+    show (run (step s i) r).cfg = s.cfg
+    rw [ih]; exact step_cfg s i
 
 /-- stronger: established **plus reserved** slots never exceed the limits (a reservation is never over-committed) -/
-theorem C36_sound_reserved (v : Variant) (cfg : Cfg) (ths : List Thread) (sched : List Nat)
+theorem C36_sound_reserved (cfg : Cfg) (ths : List Thread) (sched : List Nat)
     (h : ∀ t ∈ ths, t.pc = .start) :
-    let s := run v (init cfg ths) sched
+    let s := run (init cfg ths) sched
     (∀ d, (s.bound d).length + (s.pend d).length ≤ cfg.max d) ∧
     (∀ ip, cnt ip (s.bound .inb) + cnt ip (s.pend .inb) ≤ cfg.maxIp) := by
-  have hi := run_inv v (inv_init cfg ths h) sched
+  have hi := run_inv (inv_init cfg ths h) sched
   have := hi.reserved_le
   rw [run_cfg] at this
   exact this
@@ -55,16 +53,17 @@ theorem C36_sound_reserved (v : Variant) (cfg : Cfg) (ths : List Thread) (sched 
 
 /-- **The property on the connections themselves**: the number of connections actually established (returned by
 `AcceptConnect`/`Connect`, not yet closed) — not only the size of the controller's address sets — respects the
-limits, in total and per remote ip, after every schedule. -/
-def C36_established_full (v : Variant) : Prop :=
+limits, in total and per remote ip, after every schedule (closes, reconnects from the same address and repeated
+closes of stale handles included). -/
+def C36_established_full (run : State → List Nat → State) : Prop :=
   ∀ (cfg : Cfg) (ths : List Thread) (sched : List Nat), (∀ t ∈ ths, t.pc = .start) →
-    let s := run v (init cfg ths) sched
+    let s := run (init cfg ths) sched
     established s .inb ≤ cfg.maxIn ∧ (∀ ip, establishedIp s ip ≤ cfg.maxIp) ∧ established s .outb ≤ cfg.maxOut
 
-/-- full statement for `fixes/C36-stale-close.patch` (`removePeer` once per `Conn`) -/
-theorem C36_established_sound : C36_established_full .sound := by
+/-- full statement for the controller as it is -/
+theorem C36_sound_established : C36_established_full run := by
   intro cfg ths sched h
-  have hf := run_sound_invF ⟨inv_init cfg ths h, invE_init cfg ths h⟩ sched
+  have hf := run_invF ⟨inv_init cfg ths h, invE_init cfg ths h⟩ sched
   obtain ⟨l1, l2, l3⟩ := hf.1.limits
   rw [run_cfg] at l1 l2 l3
   exact ⟨Nat.le_trans (hf.2.established_le .inb) l1,
@@ -80,28 +79,10 @@ def staleThreads : List Thread :=
 /-- A: check, reserve, save, close · B: check, reserve, save · A: Close() AGAIN · C: check, reserve, save -/
 def staleSchedule : List Nat := [0, 0, 0, 0, 1, 1, 1, 0, 2, 2, 2]
 
-/-- the code as it is: the stale close drops B's record, C is admitted, two connections are established with
-limit 1 (and per-IP limit 1).  Replay: `S:1:1:1:* i0.1.5000.20338.1.ok;i0…;i0…;i1.1.5000.20338.2.ok;i1…;i0…;i2.1.5001.20338.3.ok;i2…` -/
-theorem C36_established_asShipped_counterexample : ¬ C36_established_full .asShipped := by
-  intro h
-  have := (h { maxIn := 1, maxIp := 1, maxOut := 1 } staleThreads staleSchedule (by decide)).1
-  revert this
-  decide
-
-/-- what holds for the code as it is: along every schedule that closes no `Conn` twice (the only way the shipped
-call chain `Link.CloseConn` uses it) established connections respect the limits -/
-theorem C36_established_asShipped_partial (cfg : Cfg) (ths : List Thread) (sched : List Nat)
-    (h : ∀ t ∈ ths, t.pc = .start) (hs : StaleFreeRun .asShipped (init cfg ths) sched) :
-    let s := run .asShipped (init cfg ths) sched
-    established s .inb ≤ cfg.maxIn ∧ (∀ ip, establishedIp s ip ≤ cfg.maxIp) ∧ established s .outb ≤ cfg.maxOut := by
-  rw [run_eq_of_staleFree hs]
-  exact C36_established_sound cfg ths sched h
-
-/-- the hypothesis is satisfiable by a run with overlapping handshakes that fills the limit -/
-example : StaleFreeRun .asShipped (init { maxIn := 2, maxIp := 2, maxOut := 1 } staleThreads) [0, 2, 0, 2, 2, 0, 2, 0] ∧
-    established (run .asShipped (init { maxIn := 2, maxIp := 2, maxOut := 1 } staleThreads) [0, 2, 0, 2, 2, 0, 2]) .inb = 2 := by
-  refine ⟨?_, by decide⟩
-  simp only [StaleFreeRun, and_true]
+/-- on that schedule the controller keeps B's record and refuses C (limit 1) -/
+example :
+    let s := run (init { maxIn := 1, maxIp := 1, maxOut := 1 } staleThreads) staleSchedule
+    s.bound .inb = [(1, 5000)] ∧ s.threads.map (·.pc) = [.closed, .saved, .closed] := by
   decide
 
 /-! ## Non-vacuity: the controller admits connections up to the limits and refuses the racing one -/
@@ -115,13 +96,13 @@ def twoInbound : List Thread :=
 def raceSchedule : List Nat := [0, 1, 0, 1, 0, 1]
 
 /-- on the race schedule the first connection is established and the second refused at its check -/
-example : (run .asShipped (init { maxIn := 1, maxIp := 3, maxOut := 1 } twoInbound) raceSchedule).bound .inb = [(1, 5000)]
-    ∧ ((run .asShipped (init { maxIn := 1, maxIp := 3, maxOut := 1 } twoInbound) raceSchedule).threads.map (·.pc))
+example : (run (init { maxIn := 1, maxIp := 3, maxOut := 1 } twoInbound) raceSchedule).bound .inb = [(1, 5000)]
+    ∧ ((run (init { maxIn := 1, maxIp := 3, maxOut := 1 } twoInbound) raceSchedule).threads.map (·.pc))
         = [.saved, .closed] := by decide
 
 /-- with room for both, both handshakes overlap and both connections are established: the limit is reached, not
 merely respected (T2's check waits for `reserveMu` until T1 has recorded its reservation) -/
-example : ((run .asShipped (init { maxIn := 2, maxIp := 3, maxOut := 1 } twoInbound) [0, 1, 0, 1, 1, 0, 1]).bound .inb).length = 2 := by
+example : ((run (init { maxIn := 2, maxIp := 3, maxOut := 1 } twoInbound) [0, 1, 0, 1, 1, 0, 1]).bound .inb).length = 2 := by
   decide
 
 /-- a reservation released by a failed handshake is available again -/
@@ -129,7 +110,7 @@ example :
     let ths : List Thread :=
       [{ dir := .inb, ip := 1, port := 5000, lport := 20338, pid := 1, fate := .hsFail },
        { dir := .inb, ip := 1, port := 5001, lport := 20338, pid := 2, fate := .ok }]
-    ((run .asShipped (init { maxIn := 1, maxIp := 1, maxOut := 1 } ths) [0, 0, 0, 1, 1, 1]).bound .inb) = [(1, 5001)] := by
+    ((run (init { maxIn := 1, maxIp := 1, maxOut := 1 } ths) [0, 0, 0, 1, 1, 1]).bound .inb) = [(1, 5001)] := by
   decide
 
 /-- a refused duplicate dial does not touch the reservation of the dial in flight: a third dial to another address
@@ -139,8 +120,35 @@ example :
       [{ dir := .outb, ip := 1, port := 20338, lport := 20338, pid := 1, fate := .ok },
        { dir := .outb, ip := 1, port := 20338, lport := 20338, pid := 2, fate := .ok },
        { dir := .outb, ip := 2, port := 20338, lport := 20338, pid := 3, fate := .ok }]
-    let s := run .asShipped (init { maxIn := 1, maxIp := 1, maxOut := 1 } ths) [0, 0, 1, 2, 0]
+    let s := run (init { maxIn := 1, maxIp := 1, maxOut := 1 } ths) [0, 0, 1, 2, 0]
     s.threads.map (·.pc) = [.saved, .closed, .closed] ∧ s.bound .outb = [(1, 20338)] := by
+  decide
+
+/-! ## HISTORICAL: the controller before commit 471ac830 (`stepStaleHist`) — every `Close()` ran `removePeer` -/
+
+/-- the stale close dropped B's record, C was admitted: two connections established with limit 1 (and per-IP
+limit 1).  Replay (corpus/C36/stale-close.ops):
+`S:1:1:1:* i0.1.5000.20338.1.ok;i0…;i0…;i1.1.5000.20338.2.ok;i1…;i0…;i2.1.5001.20338.3.ok;i2…` -/
+theorem C36_historical_staleClose_counterexample : ¬ C36_established_full runStaleHist := by
+  intro h
+  have := (h { maxIn := 1, maxIp := 1, maxOut := 1 } staleThreads staleSchedule (by decide)).1
+  revert this
+  decide
+
+/-- what did hold before 471ac830: along every schedule that closes no `Conn` twice (the only way the shipped call
+chain `Link.CloseConn` uses it) established connections respected the limits -/
+theorem C36_historical_staleClose_partial (cfg : Cfg) (ths : List Thread) (sched : List Nat)
+    (h : ∀ t ∈ ths, t.pc = .start) (hs : StaleFreeRun (init cfg ths) sched) :
+    let s := runStaleHist (init cfg ths) sched
+    established s .inb ≤ cfg.maxIn ∧ (∀ ip, establishedIp s ip ≤ cfg.maxIp) ∧ established s .outb ≤ cfg.maxOut := by
+  rw [runStaleHist_eq_of_staleFree hs]
+  exact C36_sound_established cfg ths sched h
+
+/-- the hypothesis is satisfiable by a run with overlapping handshakes that fills the limit -/
+example : StaleFreeRun (init { maxIn := 2, maxIp := 2, maxOut := 1 } staleThreads) [0, 2, 0, 2, 2, 0, 2, 0] ∧
+    established (runStaleHist (init { maxIn := 2, maxIp := 2, maxOut := 1 } staleThreads) [0, 2, 0, 2, 2, 0, 2]) .inb = 2 := by
+  refine ⟨?_, by decide⟩
+  simp only [StaleFreeRun, and_true]
   decide
 
 /-! ## HISTORICAL: the controller before commit 280bc886 (`stepHist`) — check-then-act -/
